@@ -9,10 +9,12 @@ import PxModel.Exec
       sel:<fd>.<truth>,…    select() with the given readiness
   `exec <op>…`  executor history (descriptors below `base` are permanently open):
       conn:<0|1>    socketpair(); the first end is queued as a new connection (1 = initialize() raises)
-      pc:<fd>       the harness closes a peer descriptor
+      connat:<fd>:<0|1>  a connection whose socket the kernel installed at <fd> is queued
+      pc:<fd> / oa:<fd>  a descriptor is closed / installed outside the executor
+      nop
       rnd/<ready>/<prio>/<beh>;<beh>…     one `_run_once`
       reap/<ids>/<beh>;…                  one `_cleanup_inactive`
-      beh = <w>~<events|x|->~<f|t|x>~<ops|->~<closes|->[!]
+      beh = <w>~<events|x|->~<f|t|x>~<ops|->~<closes|->[!]     ops: o (socketpair, lowest free) c<fd> a<fd> (open at fd)
 -/
 namespace Px.Exec
 open Px.Sel
@@ -112,6 +114,7 @@ def parseOps (s : String) : Option (List FdOp) :=
     let acc ← acc
     if t == "o" then some (.openNew :: .openNew :: acc)
     else if t.startsWith "c" then do some (.close (← (t.drop 1).toString.toInt?) :: acc)
+    else if t.startsWith "a" then do some (.openAt (← (t.drop 1).toString.toInt?) :: acc)
     else none) (some [])
 
 def parseSd (s : String) : Option Shutdown :=
@@ -183,6 +186,16 @@ def hStep (base : Nat) (h : HState) (tok : String) : HState × String :=
       match fd.toInt? with
       | some fd => ({ h with x := { h.x with sk := { h.x.sk with k := h.x.sk.k.close fd } } }, "ok")
       | none => (h, "bad-op")
+    | ["oa", fd] =>
+      match fd.toInt? with
+      | some fd => ({ h with x := { h.x with sk := { h.x.sk with k := h.x.sk.k.openAt fd } } }, "ok")
+      | none => (h, "bad-op")
+    | ["connat", fd, i] =>
+      match fd.toInt? with
+      | some fd => ({ h with x := { h.x with sk := { h.x.sk with k := h.x.sk.k.openAt fd } },
+                             queue := h.queue ++ [{ fd := fd, initRaises := i == "1" }] }, "ok")
+      | none => (h, "bad-op")
+    | ["nop"] => (h, "ok")
     | _ => (h, "bad-op")
   | _ => (h, "bad-op")
 
